@@ -111,6 +111,7 @@ class Sub:
 
     kind 'hyp':  strategy() -> hypothesis strategy of JSON-serialisable cases (called in worker)
     kind 'enum': enumerate(shard, nshards) -> iterator over that shard's part of a finite space
+    kind 'fuzz': strategy() as for 'hyp', driven by atheris (libFuzzer) with coverage feedback from the code under test
     check(case) -> dict(nontrivial=bool, classes=[str,...])  or raises Violation
     """
     name: str
@@ -126,3 +127,15 @@ class Sub:
     describe: str = ""
     sample_filter: Optional[Callable[[Any], Any]] = None  # shorten a case for evidence samples
     required_classes: tuple = ()    # classes that must be > 0 (thorough tier: generator sanity)
+    # kind 'fuzz': coverage-guided campaign (atheris/libFuzzer) over the bytes behind strategy(); the oracle is check
+    fuzz_runs: int = 20000          # libFuzzer executions per shard
+    fuzz_include: tuple = ("src",)  # module prefixes instrumented for coverage feedback
+
+
+def fuzz_variant(sub: Sub, runs: int, include=("src",)) -> Sub:
+    """The same generator and oracle as `sub`, driven by atheris (libFuzzer) with coverage feedback from the code
+    under test instead of Hypothesis' own random search."""
+    import dataclasses
+    return dataclasses.replace(sub, name=sub.name + "-atheris", kind="fuzz", fuzz_runs=runs, fuzz_include=tuple(include),
+                               required_classes=(), describe=("coverage-guided (atheris/libFuzzer) search over the bytes behind the '"
+                                                              + sub.name + "' generator, same oracle"))
